@@ -546,7 +546,7 @@ $idxArr = [10, 20, 30]; $idxStr = "xyz"; echo "idx=", $idxArr[0], "|", $idxArr[2
 `
 
 func genPair(r *verifsim.Rng) (a, b string, parts []string) {
-	switch r.Intn(7) {
+	switch r.Intn(8) {
 	case 0, 1:
 		return sameNames(r, "A", false), sameNames(r, "B", true), []string{"same_named_definitions"}
 	case 2:
@@ -565,6 +565,26 @@ func genPair(r *verifsim.Rng) (a, b string, parts []string) {
 			ab.WriteString(errorPaths[i] + "\n")
 		}
 		return ab.String(), "<?php\n" + basicsProbe + moreProbe, []string{"error_paths"}
+	case 5:
+		// A: first uses exactly what B will use, then puts thousands of DISTINCT
+		// patterns / formats / keys through the same builtins (caches keyed by
+		// string that recycle or overflow only after thousands of entries)
+		n := verifsim.Pick(r, []int{300, 1100, 4200, 4200, 9000})
+		a := "<?php\nob_start();\n" + basicsProbe + moreProbe + "ob_end_clean();\n" + fmt.Sprintf(`
+for ($i = 0; $i < %d; $i++) {
+  $p = "/^k" . $i . "(x+)$/";
+  $r1 = preg_match($p, "k" . $i . "xx", $mm);
+  $r2 = preg_replace("/v" . $i . "/", "V", "v" . $i);
+  $r3 = sprintf("%%0" . (1 + $i %% 9) . "d-k" . $i, $i);
+  $r4 = str_replace("k" . $i, "K", "k" . $i . "k");
+  $r5 = json_encode(["key" . $i => $i]);
+  $r6 = md5("s" . $i);
+  $r7 = strtoupper("w" . $i) . ucfirst("w" . $i);
+  $r8 = explode("-", "a-" . $i . "-b");
+  $r9 = number_format($i + 0.5, 1 + $i %% 3);
+}
+`, n)
+		return a, "<?php\n" + basicsProbe + moreProbe, []string{fmt.Sprintf("bulk_distinct_strings_%d", n)}
 	case 3:
 		// A: a whole file of the script corpus (run from its path); B: the basics
 		if c := loadCorpusAll(); len(c) > 0 {
